@@ -25,7 +25,7 @@ func (g *gen) textLen(limit int) int {
 }
 
 func (g *gen) ip() []byte {
-	switch g.r.intn(10) {
+	switch g.r.intn(11) {
 	case 0, 1, 2, 3:
 		return g.r.bytes(4)
 	case 4, 5, 6:
@@ -41,6 +41,11 @@ func (g *gen) ip() []byte {
 		b[g.r.intn(12)] ^= byte(1 + g.r.intn(255))
 		copy(b[12:], g.r.bytes(4))
 		return b
+	case 9: // a v4-mapped address cut short or extended: the ::ffff: prefix with a length that is neither 4 nor 16
+		b := make([]byte, 20)
+		b[10], b[11] = 0xff, 0xff
+		copy(b[12:], g.r.bytes(8))
+		return b[:g.r.intn(21)]
 	default:
 		return g.r.bytes(g.r.intn(21)) // any length 0..20
 	}
